@@ -36,6 +36,15 @@ CHECKS = {
  'C13': dict(cat='model_checking', tech='TLA+ spec (Bounds.tla) model-checked with TLC (abstract geometry) + trace validation of ALL operation sequences up to a length on real unions',
    text='Bounds.tla is model-checked exhaustively with abstract geometry (all partitions of 7-8 points, all volume splits): RecordsAligned, Partition, NonEmpty and conformance of every step to the clauses; a variant whose trim forgets the flag must fail. On the code every sequence over {split(overlap), split(no overlap), trim, sample, log_v} up to length 4 (quick) / 5 (thorough) is executed once per point set (DFS with deep copies) and every edge validated clause by clause.',
    ref='DESIGN 4.5, 5/C13'),
+ 'C14': dict(cat='model_checking', tech='TLA+ spec (EqualWeight.tla) model-checked with TLC + trace validation of real equal-weight resampling calls with cloned generator draws',
+   text='EqualWeight.tla defines the resampling step; TLC checks floor-or-ceil, order, no repeats for boost<=1 and ExpectationExact (the number of draws that add a copy is exactly frac(r)*G) on all small inputs and refutes a ceil variant. On real runs (zero-weight rows included), for boosts {0.3,1,2.5,10} and several generator states, the generator is cloned before the call, so each row\'s multiplicity must equal floor(r)+[u<frac(r)] for the actual draw u; order, (likelihood, blob) of repeats, equal normalised weights, unchanged weighted posterior and stored state are clauses of the trace spec.',
+   ref='DESIGN 4.7, 5/C14'),
+ 'C15': dict(cat='model_checking', tech='TLA+ spec (Prior.tla) model-checked with TLC + trace validation of the exhaustively explored declaration graph of the real Prior',
+   text='Prior.tla (declarations, admissible exception classes, Dim/Phys/Dict) is model-checked over all declaration sequences; the replayer tries every declaration of the alphabet (6 key arguments x 8 distributions) from every prior with fewer than 3 (quick) / 4 (thorough) accepted declarations and TLC validates every edge: accepted iff well-formed, rejected with an admissible exception and unchanged state, and dimensionality / unit_to_physical / unit_to_dictionary decoded to (distribution, coordinate) tables equal the spec\'s, for 1-D and 2-D inputs.',
+   ref='DESIGN 4.7, 5/C15'),
+ 'C16': dict(cat='model_checking', tech='TLA+ specs (PhaseShift.tla integer grid model, PhaseMini.tla minifloat model) model-checked with TLC + exact replay of the real PhaseShift on the dyadic grid and on float64 boundary inputs',
+   text='PhaseShift.tla: for all point subsets of the 16-grid and all inputs TLC checks InRange, ShiftBijection, GapOnBoundary; PhaseMini.tla models round-to-nearest and numpy\'s remainder on a 4-bit mantissa: the repaired algorithm stays in [0,1) for all representable (x, centre), the original does not. The real compute()/transform() are replayed on grid point sets where float arithmetic is exact, and centres and complete forward/inverse tables must EQUAL the model; the hazard classes of the minifloat model (neighbours of both wrap positions, of 0 and of 1) are instantiated in float64.',
+   ref='DESIGN 4.7, 5/C16'),
 }
 NA = {
  'C04': 'statistical statement about the expectation over independent seeds of real-valued estimators; TLC has no probabilities or reals and trace validation judges single executions (DESIGN 7). Its deterministic premises are decided by C01, C02, C08, C12.',
